@@ -20,7 +20,7 @@ from vf.core import CaseResult, Ctx, Violation, hyp_run, exc_sig
 
 PROP_ID = 'C37'
 LEVEL = 'exploration'
-BUDGET = {'quick': 4800, 'thorough': 160000}
+BUDGET = {'quick': 3200, 'thorough': 120000}
 RULE = (
     'Hypothesis draws 1-4 "KEY=<python literal text>" pairs from a literal '
     'grammar: ints (decimal, signed, hex/octal/binary, underscores, 30-5000 '
@@ -142,10 +142,12 @@ _COMPLEX = st.one_of(
     st.tuples(st.integers(-5, 5), st.integers(0, 5)).map(
         lambda p: f'{p[0]}-{p[1]}j'),
 )
-_CONST = st.sampled_from(['None', 'True', 'False', '...', 'None', 'True'])
+_CONST = st.sampled_from(['None', 'True', 'False'] * 3 + ['...'])
 
-_ATOM = st.one_of(_STRINGS, _STRINGS, _INTS, _INTS, _FLOATS, _FLOATS,
-                  _COMPLEX, _BYTES, _CONST)
+_ATOM_KINDS = [_STRINGS, _STRINGS, _STRINGS, _INTS, _INTS, _FLOATS, _FLOATS,
+               _COMPLEX, _BYTES, _CONST]
+_ATOM = st.integers(0, len(_ATOM_KINDS) - 1).flatmap(
+    lambda i: _ATOM_KINDS[i])
 _HASHABLE_ATOM = _ATOM
 _WS = st.sampled_from(['', '', '', ' ', '  ', '\n', ' \n ', '\t'])
 _SEP = st.sampled_from([', ', ',', ' , ', ',\n', ', '])
@@ -194,7 +196,10 @@ def _tuple_key(depth):
 def _literal(depth):
     if depth <= 0:
         return _ATOM
-    return st.one_of(_ATOM, _ATOM, _container(depth))
+    # NB one_of() flattens nested one_of()s, which would make containers a
+    # 1-in-19 choice: choose the branch explicitly
+    cont = _container(depth)
+    return st.integers(0, 4).flatmap(lambda i: cont if i < 2 else _ATOM)
 
 
 @st.composite
@@ -257,6 +262,21 @@ def same(a, b):
         bl = list(b)
         return all(any(same(x, y) for y in bl) for x in a)
     return a == b
+
+
+def srepr(v, limit=300):
+    """repr that cannot fail (huge ints) and is bounded."""
+    try:
+        r = repr(v)
+    except ValueError:
+        r = f'<{type(v).__name__} whose repr() raises (huge int inside)>'
+    return r if len(r) <= limit else r[:limit] + '...'
+
+
+def _huge_int(v):
+    return any(
+        isinstance(x, int) and not isinstance(x, bool)
+        and abs(x) >= 10 ** 4300 for x in walk(v))
 
 
 def walk(v):
@@ -389,17 +409,14 @@ def check_case(case, ctx: Ctx) -> CaseResult:
             mgr.put_workflow_template_vars(tvars)
             mgr.process_queued_ops()
         except Exception as exc:
-            big = any(
-                isinstance(x, int) and not isinstance(x, bool)
-                and abs(x) >= 10 ** 4300
-                for v in tvars.values() for x in walk(v))
+            big = any(_huge_int(v) for v in tvars.values())
             sig = ('C37:cannot-store:int-exceeds-str-digits-limit'
                    if big and isinstance(exc, ValueError)
                    and 'digits' in str(exc)
                    else 'C37:cannot-store:' + exc_sig(exc))
             viol.append(Violation(
-                sig, f'{case["start"]!r} accepted by load_template_vars but '
-                f'storing it raises {exc!r}'[:600]))
+                sig, f'{srepr(case["start"])} accepted by load_template_vars '
+                f'but storing it raises {exc!r}'[:600]))
             return CaseResult(viol, nontrivial=nontrivial, classes=classes,
                               distinct_key=case['start'])
         mgr.on_workflow_shutdown()
@@ -431,17 +448,20 @@ def check_case(case, ctx: Ctx) -> CaseResult:
                         Scheduler._load_template_vars(stub, i, list(row))
                     except Exception as exc:
                         orig = expect.get(row[0])
-                        if _nonfinite(orig) and not _has_ellipsis(orig):
-                            sig = 'C37:restore-fails:non-finite-float'
-                        elif _has_ellipsis(orig) and not _nonfinite(orig):
-                            sig = 'C37:restore-fails:ellipsis'
-                        else:
-                            sig = 'C37:restore-fails:' + exc_sig(exc)
-                        viol.append(Violation(
-                            sig,
-                            f'restart {nrestart}: {row[0]}={orig!r} was stored '
-                            f'as {row[1]!r} which cannot be restored: '
-                            f'{type(exc).__name__}: {str(exc)[:200]}'))
+                        sigs = []
+                        if _nonfinite(orig):
+                            sigs.append('C37:restore-fails:non-finite-float')
+                        if _has_ellipsis(orig):
+                            sigs.append('C37:restore-fails:ellipsis')
+                        if not sigs:
+                            sigs.append('C37:restore-fails:' + exc_sig(exc))
+                        for sig in sigs:
+                            viol.append(Violation(
+                                sig,
+                                f'restart {nrestart}: {row[0]}={srepr(orig)} '
+                                f'was stored as {srepr(row[1])} which cannot '
+                                f'be restored: {type(exc).__name__}: '
+                                f'{str(exc)[:200]}'))
                         # what a restart would have: nothing for this key
                         expect.pop(row[0], None)
             got = stub.template_vars
@@ -449,17 +469,18 @@ def check_case(case, ctx: Ctx) -> CaseResult:
                 if k not in got:
                     viol.append(Violation(
                         'C37:variable-missing-after-restart',
-                        f'restart {nrestart}: {k} (={want!r}) not restored; '
+                        f'restart {nrestart}: {k} (={srepr(want)}) not restored; '
                         f'have {sorted(got)}'))
                 elif not same(want, got[k]):
                     is_cli = k in cli_now
                     viol.append(Violation(
                         'C37:cli-value-does-not-win' if is_cli
                         else 'C37:value-changed-by-restart',
-                        f'restart {nrestart}: {k} was {want!r} '
-                        f'({type(want).__name__}), restored as {got[k]!r} '
+                        f'restart {nrestart}: {k} was {srepr(want)} '
+                        f'({type(want).__name__}), restored as {srepr(got[k])} '
                         f'({type(got[k]).__name__})'
-                        + (f'; command line gave {cli_now[k]!r}' if is_cli else '')))
+                        + (f'; command line gave {srepr(cli_now[k])}'
+                           if is_cli else '')))
                 elif _zero_signs(want) != _zero_signs(got[k]):
                     classes.append('signed-zero-lost')
             for k in got:
@@ -467,7 +488,7 @@ def check_case(case, ctx: Ctx) -> CaseResult:
                         v.sig.startswith('C37:restore-fails') for v in viol):
                     viol.append(Violation(
                         'C37:unexpected-variable-after-restart',
-                        f'restart {nrestart}: {k}={got[k]!r} appeared'))
+                        f'restart {nrestart}: {k}={srepr(got[k])} appeared'))
             if viol:
                 break
             # the scheduler stores the (merged) variables again at restart
@@ -475,9 +496,14 @@ def check_case(case, ctx: Ctx) -> CaseResult:
                 mgr.put_workflow_template_vars(got)
                 mgr.process_queued_ops()
             except Exception as exc:
+                big = any(_huge_int(v) for v in got.values())
                 viol.append(Violation(
-                    'C37:cannot-store:' + exc_sig(exc),
-                    f'restart {nrestart}: re-storing {got!r} raises {exc!r}'[:500]))
+                    'C37:cannot-store:int-exceeds-str-digits-limit'
+                    if big and isinstance(exc, ValueError)
+                    and 'digits' in str(exc)
+                    else 'C37:cannot-store:' + exc_sig(exc),
+                    f'restart {nrestart}: re-storing {srepr(got)} raises '
+                    f'{exc!r}'[:500]))
                 break
             mgr.on_workflow_shutdown()
         return CaseResult(viol, nontrivial=nontrivial, classes=classes,
